@@ -32,7 +32,7 @@ SCHEMA.update({
     'Segment.allow_infinite_children': 'bool',
     'Segment._last_allowed_child_index': 'int',
     'Segment._last_child_index': 'int',
-    'Group.child_classes': 'dict[any]',
+    'Element.child_classes': 'dict[any]',
     # base datatypes
     'BaseDataType.value': 'any',
     'BaseDataType.max_length': 'int?',
